@@ -236,6 +236,15 @@ class Machine(object):
                 self.guarded_call("save_to_file", lambda: store.save_to_file(path), None)
                 s2 = stix2.MemoryStore()
                 self.guarded_call("load_from_file", lambda: s2.load_from_file(path), None)
+        elif k == "env_add":
+            items = [self.doc(a)] + ([self.obj(b)] if self.objs else [])
+            items = [m for m in items if m is not None]
+            self.extra.append(items)
+            env = stix2.Environment(store=stix2.MemoryStore())
+            self.guarded_call(k, lambda: env.add(items if op.get("flag") else items[0]), None)
+            got, _ = self.guarded_call(k + ":query", lambda: env.query(), None)
+            for o in got or []:
+                self.keep(o)
         elif k == "factory":
             omr = [MARKING_IDS[0]]
             ext = [{"source_name": "s", "description": "x"}]
@@ -314,7 +323,7 @@ def check_case(case):
 
 OPS = ["parse", "parse", "constructor", "constructor", "bundle", "deepcopy", "new_version", "new_version_dict", "revoke", "remove_custom_stix",
        "mark:add_markings", "mark:remove_markings", "mark:set_markings", "mark:clear_markings", "mark:get_markings", "mark:is_marked", "serialize",
-       "memory_add", "fs_add", "factory", "canonicalize", "mutate", "mutate", "mutate_result", "parse_observable"]
+       "memory_add", "fs_add", "env_add", "factory", "canonicalize", "mutate", "mutate", "mutate_result", "parse_observable"]
 OPTS = {"ts_max_digits": 6, "selectors": "safe", "max_optional": 6, "min_year": 1971}
 
 
